@@ -20,6 +20,13 @@ def handle (op : String) (args : List String) : Option String :=
   | "broadcast_arrays", [l] => do
     let l ← parseArrList? l
     some (showRes showArrList (Arr.broadcastArrays l))
+  -- the crate-internal helpers: the two / three stretched operands (`T::zero()` is 0)
+  | "h2", [a, b] => do
+    let a ← parseArr? a; let b ← parseArr? b
+    some (showRes (fun p => showArr p.1 ++ ";" ++ showArr p.2) (a.broadcastH2 0 b))
+  | "h3", [a, b, c] => do
+    let a ← parseArr? a; let b ← parseArr? b; let c ← parseArr? c
+    some (showRes (fun p => showArr p.1 ++ ";" ++ showArr p.2.1 ++ ";" ++ showArr p.2.2) (a.broadcastH3 0 b c))
   | _, _ => none
 
 end Driver.C03
